@@ -53,6 +53,49 @@ func sub(a *big.Int, k int64) *big.Int { return new(big.Int).Sub(a, big.NewInt(k
 func add(a *big.Int, k int64) *big.Int { return new(big.Int).Add(a, big.NewInt(k)) }
 func pow2(k uint) *big.Int            { return new(big.Int).Lsh(bigOne, k) }
 
+// limbPerturbations: every value whose four 64-bit limbs are those of m shifted by -1/0/+1
+// (wrapping), i.e. the inputs that separate a correct multi-limb comparison from a wrong one.
+func limbPerturbations(m *big.Int) []*big.Int {
+	var limbs [4]uint64
+	t := new(big.Int).Set(m)
+	mask := new(big.Int).SetUint64(^uint64(0))
+	for i := 0; i < 4; i++ {
+		limbs[i] = new(big.Int).And(t, mask).Uint64()
+		t.Rsh(t, 64)
+	}
+	var out []*big.Int
+	for a := -1; a <= 1; a++ {
+		for b := -1; b <= 1; b++ {
+			for c := -1; c <= 1; c++ {
+				for d := -1; d <= 1; d++ {
+					v := new(big.Int)
+					for i, e := range []int{a, b, c, d} {
+						l := new(big.Int).SetUint64(limbs[i] + uint64(int64(e)))
+						v.Add(v, l.Lsh(l, uint(64*i)))
+					}
+					out = append(out, v)
+				}
+			}
+		}
+	}
+	// one limb saturated / zeroed
+	for i := 0; i < 4; i++ {
+		for _, x := range []uint64{0, ^uint64(0)} {
+			v := new(big.Int)
+			for j := 0; j < 4; j++ {
+				lv := limbs[j]
+				if j == i {
+					lv = x
+				}
+				l := new(big.Int).SetUint64(lv)
+				v.Add(v, l.Lsh(l, uint(64*j)))
+			}
+			out = append(out, v)
+		}
+	}
+	return out
+}
+
 // specialScalars: values the properties single out
 func specialScalars() []*big.Int {
 	out := []*big.Int{big.NewInt(0), big.NewInt(1), big.NewInt(2), big.NewInt(3), big.NewInt(5),
@@ -198,6 +241,7 @@ func genC16(w *bufio.Writer, r *rng, thorough bool) {
 		}
 		return b
 	}
+	vals = append(vals, limbPerturbations(rMod)...)
 	for _, k := range kinds {
 		le := k != "be"
 		for _, v := range vals {
@@ -429,6 +473,16 @@ func genC14(w *bufio.Writer, r *rng, thorough bool) {
 		}
 		emit(w, "tr %s %s", hexOrDash(r.bytes(r.intn(20))), genTrHistory(r, pool, l))
 	}
+	// repeated separators and repeated sub-protocol runs on one transcript
+	for _, l := range []string{labelHex("ipa"), labelHex("multiproof"), "-", hx(r.bytes(5))} {
+		x := labelHex("x")
+		emit(w, "tr %s d:%s;c:%s", labelHex("t"), l, x)
+		emit(w, "tr %s d:%s;d:%s;c:%s", labelHex("t"), l, l, x)
+		emit(w, "tr %s d:%s;d:%s;d:%s;c:%s;d:%s;c:%s", labelHex("t"), l, l, l, x, l, x)
+		emit(w, "tr %s d:%s;s:%s:%s;c:%s;d:%s;s:%s:%s;c:%s;d:%s;c:%s", labelHex("t"), l, x, r.scalar(), x, l, x, r.scalar(), x, l, x)
+		emit(w, "tr %s d:%s;m:%s:%s;d:%s;m:%s:%s;c:%s", labelHex("t"), l, l, l, l, l, l, l)
+		emit(w, "trpair %s d:%s;c:%s %s d:%s;d:%s;c:%s", labelHex("t"), l, x, labelHex("t"), l, l, x)
+	}
 	// long pending buffers: many appends before one challenge
 	for _, total := range []int{1000, 1024, 1025, 2047, 4096, 5000, 20000} {
 		var ops []string
@@ -550,6 +604,11 @@ func genC06(w *bufio.Writer, r *rng, thorough bool) {
 			emit(w, "pt.decunc %s%s %s", be32(v), be32(sub(pMod, 1)), t)
 			emit(w, "pt.decunc %s%s %s", be32(big.NewInt(0)), be32(v), t)
 		}
+	}
+	for _, v := range limbPerturbations(pMod) {
+		emit(w, "pt.dec %s", be32(v))
+		emit(w, "pt.decunc %s%s 0", be32(v), be32(sub(pMod, 1)))
+		emit(w, "pt.decunc %s%s 0", be32(big.NewInt(0)), be32(v))
 	}
 	for n := 0; n <= 70; n++ {
 		emit(w, "pt.dec %s", hexOrDash(r.bytes(n)))
@@ -923,6 +982,18 @@ func genC05(w *bufio.Writer, r *rng, thorough bool) {
 		}
 		emit(w, "commit x%s", strings.Join(items, ","))
 	}
+	// dense vectors of awkward lengths (not multiples of any plausible task count)
+	denseLens := []int{67, 131, 255}
+	if thorough {
+		denseLens = []int{64, 65, 67, 97, 128, 131, 199, 250, 251, 253, 254, 255}
+	}
+	for _, n := range denseLens {
+		var items []string
+		for i := 0; i < n; i++ {
+			items = append(items, r.scalar())
+		}
+		emit(w, "commit x%s", strings.Join(items, ","))
+	}
 	emit(w, "commit z")
 	emit(w, "commit m")
 	emit(w, "commit k%s", be32(big.NewInt(1)))
@@ -1221,6 +1292,9 @@ func genMp(w *bufio.Writer, r *rng, thorough bool, id string) {
 			emit(w, "mp %s %s", r.pick(labels), openingSet(r, n, p, 1))
 		}
 	}
+	// dense polynomials opened at the extreme domain points (largest index distances in the tables)
+	emit(w, "mp %s r%d@255;r%d@0", labelHex("test"), 3+r.intn(100), 3+r.intn(100))
+	emit(w, "mp %s r%d@254;r%d@1;m@128", labelHex("test"), 3+r.intn(100), 3+r.intn(100))
 	// the published vector shapes
 	emit(w, "mp %s r1@0;r2@0", labelHex("test"))
 	emit(w, "mp %s z@7", labelHex("test"))
@@ -1547,6 +1621,16 @@ func genC10(w *bufio.Writer, r *rng, thorough bool) {
 			} else {
 				vals = [][]byte{le32(sub(rMod, 1)), le32(rMod), le32(add(rMod, 1)), le32(big.NewInt(0)), le32(sub(two256, 1)), le32(pMod),
 					le32(new(big.Int).Add(new(big.Int).SetBytes(be32rev(good[544:576])), rMod))}
+			}
+			if pos == 17 && p == 0 {
+				for _, v := range limbPerturbations(rMod) {
+					vals = append(vals, le32(v))
+				}
+			}
+			if pos == (p*7+3)%17 {
+				for _, v := range limbPerturbations(pMod) {
+					vals = append(vals, be(v))
+				}
 			}
 			for _, v := range vals {
 				b := append([]byte(nil), good...)
